@@ -253,6 +253,11 @@ def summary_ids(ctx, rule="PROP-ID"):
         S = Sym(prog, f)
         sp = [args for b, n, args, t in symcalls(prog, f, S) if re.search(r"<impl str>::(split_once|splitn)$", n)]
         ctx.check(len(sp) == 1 and "c:59" in " ".join(sp[0]), R, "%s splits the template at ';'" % fname, "", "%s does not split the template at the first ';': %s" % (fname, sp), f.loc(), fn=f.name)
+    cp_thread(ctx)
+
+
+def cp_thread(ctx):
+    prog = ctx.prog
     R = "CP-THREAD"
     ctx.rule(R, "PropertySet::write encodes every value with the set's own code page and read decodes every value with the code page parsed from property 1 (the code page "
                 "property itself with the default)")
@@ -312,3 +317,38 @@ def header_tables(ctx, rule="HDR-TAB"):
                     wr[vs_os[fs[-1][1]]] = o["int"]
     ctx.check(rd == REF and wr == REF, rule, "operating-system numbers", "read %s write %s" % (rd, wr), "the operating-system field is read as %s and written as %s; the format uses %s and the two "
               "tables must be inverse" % (rd, wr, REF), r.loc(), fn=r.name, key=rule + "|os")
+
+
+def prop_all(ctx, rule="PROP-ALL"):
+    """every entry of the property directory is read and kept"""
+    from .loops import cycle_without
+    prog = ctx.prog
+    ctx.rule(rule, "in PropertySet::read every iteration of the loop over the directory entries, and of the loop over the recorded offsets, ends in an insertion into its map "
+                   "(or leaves through an error): no property is skipped, so the set that is written back is the set that was read - including the code page property")
+    r = prog.fn(PS + "PropertySet::read")
+    ins = {b for b, t in r.calls() if re.search(r"BTreeMap::<K, V, A>::insert$", cname(prog, t))}
+    loops = cfg.natural_loops(r)
+    n = 0
+    for h, body in sorted(loops.items()):
+        here = ins & body
+        if not here:
+            continue
+        n += 1
+        ctx.check(not cycle_without(r, h, body, here), rule, "loop at bb%d stores every entry" % h, "%d insert site(s)" % len(here),
+                  "PropertySet::read can finish an iteration of its loop over the property directory without storing the entry: that property (for instance the code page, "
+                  "property 1) is missing from the set and disappears at the next save", r.loc(r.blocks[h]["term"].get("sp")), fn=r.name, key="%s|loop%d" % (rule, n))
+    ctx.floor(rule, "directory loops in PropertySet::read", n, 2)
+
+
+def lang_list(ctx, rule="LANG-LIST"):
+    """every parsable entry of the template's language list is reported, whatever its value (0 is the neutral language, a legitimate entry)"""
+    from ..lib import unit_comparisons
+    prog = ctx.prog
+    ctx.rule(rule, "SummaryInfo::languages drops only list entries that do not parse: no list element is compared with a constant (a filter on the value would lose the neutral "
+                   "language 0, which templates such as `Intel;0` carry)")
+    f = prog.fn(SI + "languages")
+    bad = [(o, x[:60], y) for (o, x, y, fa) in unit_comparisons(prog, f) if o in ("Eq", "Ne", "Lt", "Le", "Gt", "Ge") and
+           ((x.startswith("elem(") and re.fullmatch(r"c:-?\d+", y)) or (y.startswith("elem(") and re.fullmatch(r"c:-?\d+", x)))]
+    prs = [1 for g in prog.unit(f) for b, t in g.calls() if re.search(r"<impl str>::parse$", t.get("callee") or "")]
+    ctx.check(not bad and bool(prs), rule, "languages() keeps every parsed code", "%d parse site(s)" % len(prs),
+              "SummaryInfo::languages filters list entries by value (%s): a template listing that language comes back without it" % bad[:2], f.loc(), fn=f.name, key=rule)
